@@ -44,6 +44,8 @@ def judge(ck, runs, nmax=12):
     recfile = ck.scratch.path("qs.ndjson")
     write_ndjson(recfile, [{"ev": r["ev"], "strict": 1 if r["h"].get("strict") else 0, "log": 1 if any(e["op"] == "log" for e in r["ev"]) else 0} for r in runs])
     cfg = ck.scratch.path("QSendTrace.cfg")
+    # the monitor keeps 1..NMAX messages (numbered by first appearance): never fewer than the histories use
+    nmax = max([nmax] + [max(e.get("n", 0) or 0, e.get("m", 0) or 0) for r in runs for e in r["ev"]])
     with open(cfg, "w") as f:
         f.write("SPECIFICATION Spec\nCONSTANT NMAX = %d\nINVARIANT Inv\n" % nmax)
     bad, vres = tlc_validate_records("QSendTrace", cfg, recfile, len(runs), workers=NCPU, timeout=1500, heap="10g")
